@@ -13,7 +13,7 @@
    Generic in Num T: T := R for the theorems, T := float for execution against the implementation. *)
 From Coq Require Import ZArith QArith Bool List.
 From OV.base Require Import Num.
-From OV.gen Require Import Gen_ConstrainedObjective.
+From OV.gen Require Import Gen_ConstrainedObjective Gen_AlSolver Gen_BoundConstrainedObjective.
 Import ListNotations.
 
 Inductive phase := LS (k : nat) | Sub.
@@ -31,18 +31,19 @@ Section AL.
   Definition vscale (s : T) (a : vec) : vec := map (fun x => nmul x s) a.           (* dx *= s *)
   Definition norm2 (v : vec) : T := nsqrt (nsum (map (fun a => nmul a a) v)).       (* np.linalg.norm *)
 
-  (* alObjective.lam = np.maximum(alObjective.lam - kappa*c, 0.0) *)
-  Definition lam_update (lam kappa c : vec) : vec :=
-    map2 (fun l kc => nmax (nsub l kc) nzero) lam (map2 nmul kappa c).
+  (* alObjective.lam = np.maximum(alObjective.lam - kappa*c, 0.0): the statement itself, regenerated from AlSolver.solve_sub_step
+     (gen/Gen_AlSolver.v: sub_lam_update), applied per constraint *)
+  Definition lam_update (lam kappa c : vec) : vec := zip3 sub_lam_update lam kappa c.
   (* vmap(fischer_burmeister)(c, l, constraintKappa) *)
   Definition ncp_of (c lam kappa0 : vec) : vec := zip3 fischer_burmeister c lam kappa0.
-  (* kappa.at[poor].set(s * kappa[poor]); entries without a flag are kept *)
+  (* alObjective.kappa = kappa.at[poor].set(s * kappa[poor]): the statement regenerated from solve_sub_step (sub_kappa_update),
+     applied per constraint; entries without a flag are kept *)
   Fixpoint scale_where (s : T) (poor : list bool) (kappa : vec) : vec :=
     match kappa with
     | [] => []
     | k :: ks => match poor with
                  | [] => k :: ks
-                 | p :: ps => (if p then nmul s k else k) :: scale_where s ps ks
+                 | p :: ps => sub_kappa_update k p s :: scale_where s ps ks
                  end
     end.
 
@@ -105,8 +106,8 @@ Section AL.
     let c := constraint orc it Sub x' in
     let lam' := lam_update lam kappa c in
     let ncpE := map nabs (ncp_of c lam' kappa0) in
-    let thr := ndiv (nmul (nZ 10) (tol cfg)) (nsqrt (nZ (Z.of_nat (length ncpE)))) in
-    let poor := map2 (fun e old => nltb (nmax (nmul (target_decrease cfg) old) thr) e) ncpE ncpOld in
+    (* poorProgress = ncpError > np.maximum(tdf * ncpErrorOld, 10 * tol / np.sqrt(len(ncpError))): regenerated (sub_poor_progress) *)
+    let poor := map2 (fun e old => sub_poor_progress e old (target_decrease cfg) (tol cfg) (nZ (Z.of_nat (length ncpE)))) ncpE ncpOld in
     let grew := andb (existsb (fun b => b) poor) ok in
     let kappa' := if grew then scale_where (penalty_scaling cfg) poor kappa else kappa in
     let err := norm2 (total_residual it Sub x' lam' kappa') in
@@ -152,6 +153,29 @@ End AL.
 
 Arguments event T : clear implicits.
 Arguments outcome T : clear implicits.
+
+(* ---- BoundConstrainedSolver.bound_constrained_solve around al_solve, and the state BoundConstrainedObjective.__init__ sets up ----
+   reset_kappa(): kappa := constraintKappa (= kappa0);  xBar0 = scaling * x0 (+ warm-start increment: an oracle value dxBar);
+   augmented_lagrange_solve(obj, xBar0, p, ..., useWarmStart=False, updatePrecond=False);  return invScaling * xBar.
+   get_multipliers() = lam * scaling[constrainedIndices].  Initial multipliers: lam0 = max(g_i * invScaling_i, 0) (generated
+   bc_initial_multiplier), initial penalties 0.25. *)
+Section Bound.
+  Context {T : Type} {NT : Num T}.
+  Variable cfg : @settings T.
+  Variable orc : @oracles T.
+  Definition c_quarter : T := nconst (1 # 4) (4503599627370496%Z, (-54)%Z).
+  Definition bc_initial_lam (gscaled : list T) : list T := map bc_initial_multiplier gscaled.
+  Definition bc_initial_kappa (gscaled : list T) : list T := map (fun _ => c_quarter) gscaled.
+  Definition vmul (a b : list T) : list T := map2 nmul a b.
+  Inductive bc_outcome := BCReturned (x mult lam kappa : list T) | BCNotConverged.
+  (* sc_c / isc: scaling restricted to the constrained dofs / inverse scaling on all dofs *)
+  Definition bc_solve (scaling isc sc_c kappa0 x0 dxBar lam : list T) : bc_outcome * list (event T) :=
+    let xBar0 := vadd (vmul scaling x0) dxBar in
+    match al_solve cfg orc kappa0 xBar0 lam kappa0 with          (* reset_kappa: the solve starts from kappa = constraintKappa *)
+    | (Returned xBar lam' kappa', ev) => (BCReturned (vmul isc xBar) (vmul lam' sc_c) lam' kappa', ev)
+    | (NotConverged _ _ _, ev) => (BCNotConverged, ev)
+    end.
+End Bound.
 
 (* ---- NewtonSolver.compute_min_p(ps, bounds) ---- *)
 Section MinP.
